@@ -22,6 +22,10 @@ type tagsValuer []string
 
 func (t tagsValuer) Value() (driver.Value, error) { return len(t), nil }
 
+// named byte slice / byte array types without a Valuer: one bound value each
+type rawMsg []byte
+type digest [2]byte
+
 type c01Form struct {
 	name string
 	run  func(db *gorm.DB, x, y, z int) (*gorm.Statement, []interface{})
@@ -56,6 +60,14 @@ func c01Forms() []c01Form {
 			// a blob compared for (in)equality through the column form is one bound value
 			b1, b2 := []byte{byte(x), byte(y)}, []byte{byte(z)}
 			return find(db.Table("t").Where("a", b1).Not("b", b2).Where(clause.Neq{Column: "c", Value: b1})), []interface{}{b1, b2, b1}
+		}},
+		{"named-byte-types", func(db *gorm.DB, x, y, z int) (*gorm.Statement, []interface{}) {
+			r, d := rawMsg{byte(x), byte(y)}, digest{byte(z), byte(x)}
+			return find(db.Table("t").Where("a = ? AND b = ?", r, d).Where("c = ?", z)), []interface{}{r, d, z}
+		}},
+		{"named-byte-types-update-map", func(db *gorm.DB, x, y, z int) (*gorm.Statement, []interface{}) {
+			r, d := rawMsg{byte(x)}, digest{byte(y), byte(z)}
+			return db.Table("t").Where("k = ?", d).Updates(map[string]interface{}{"a": r}).Statement, []interface{}{r, d}
 		}},
 		{"pointer-and-null", func(db *gorm.DB, x, y, z int) (*gorm.Statement, []interface{}) {
 			n := sql.NullInt64{Int64: int64(y), Valid: true}
